@@ -84,7 +84,7 @@ let handle toks =
             Buffer.add_string out ((if l = [] then "-" else String.concat "," l) ^ " ")
         | "nvt" -> (* number of vtable events since reset, and number of distinct (nest, bytes) among them *)
             let vts = List.filter (fun e -> iz e.ev_kind = 1) !evs in
-            let keys = List.sort_uniq compare (List.map (fun e -> (iz e.ev_nest, List.map iz e.ev_bytes)) vts) in
+            let keys = List.sort_uniq compare (List.map (fun e -> (iz e.ev_nest, List.map iz e.ev_tag)) vts) in
             Buffer.add_string out (Printf.sprintf "%d/%d " (List.length vts) (List.length keys))
         | "FA" -> st := set_fa (zs (a 1)) (set_fa_rep (b01 (a 2)) !st); Buffer.add_string out "ok "
         | "FE" -> st := set_fe (zs (a 1)) (set_fe_rep (b01 (a 2)) !st); Buffer.add_string out "ok "
